@@ -320,6 +320,7 @@ type params struct {
 	steerKey          int // key class forced on the real side through csrand.Reader, -1 none (reference pairings only)
 	steerPad          int // -1 none; bit0: phase-1 padding of the real side max (else 0), bit1: same for phase 2
 	big               int // > 0: both sides' scripts contain single large writes from bigMenu
+	tiny              bool // the applications' first 60 reads use buffers of 1..24 bytes
 	seed              uint64
 }
 
@@ -328,8 +329,8 @@ type params struct {
 var bigMenu = []int{32767, 32769, 40000, 65535, 65537, 98305, 100001, 131073, 200003}
 
 func (p params) String() string {
-	return fmt.Sprintf("pairing=%s scenario=%s c2s=%s s2c=%s straddle=%d refpad=%d,%d coalesce=%v refkey=%d alt=%v steerkey=%d steerpad=%d big=%d seed=%x",
-		pairingNames[p.pairing], scenarioNames[p.scenario], policies[p.polC2S].name, policies[p.polS2C].name, p.straddle, p.refPad1, p.refPad2, p.coalesce, p.refKey, p.refAlt, p.steerKey, p.steerPad, p.big, p.seed)
+	return fmt.Sprintf("pairing=%s scenario=%s c2s=%s s2c=%s straddle=%d refpad=%d,%d coalesce=%v refkey=%d alt=%v steerkey=%d steerpad=%d big=%d tiny=%v seed=%x",
+		pairingNames[p.pairing], scenarioNames[p.scenario], policies[p.polC2S].name, policies[p.polS2C].name, p.straddle, p.refPad1, p.refPad2, p.coalesce, p.refKey, p.refAlt, p.steerKey, p.steerPad, p.big, p.tiny, p.seed)
 }
 
 type rw interface {
@@ -558,8 +559,11 @@ func runConn(c *mon.Case, r *mon.Run, p params) {
 		defer own.Close()
 		brng := mon.NewRand(bufSeed)
 		var off int64
-		for {
+		for k := 0; ; k++ {
 			buf := make([]byte, 1+brng.IntN(9000))
+			if p.tiny && k < 60 {
+				buf = buf[:1+brng.IntN(24)]
+			}
 			n, err := conn.Read(buf)
 			mu.Lock()
 			if n > 0 {
@@ -1109,6 +1113,7 @@ func bubble(c *mon.Case, what string, fn func()) {
 func TestCheck(t *testing.T) {
 	r := mon.Start(t, "C13")
 	defer r.Finish()
+	r.SpinWatch(memwire.BytesMoved)
 	r.Note("rule", "Part A: uniformdh.GenerateKey fed scripted 192-byte readers (PRNG even/odd, 0, 1, 2, 3, all-ones, p, p+-1, p+2, q, q+1, top bit; the last bit is the X / p-X coin) in all class pairs plus PRNG pairs; for each pair both public keys must be 192 bytes and equal g^x or p-g^x, and for all four combinations of the form each side could have sent (the sent one and p minus it, through PublicKey.SetBytes) both Handshake results must be 192 bytes, equal, and equal g^(xy) mod p computed with math/big. Degenerate peer values (0, 1, 2, p-1, p, p+1, all-ones) are only recorded. "+
 		"Part B: obfs3 connections over a buffered in-memory wire in synctest bubbles, pairings real<->real, reference client<->real server, real client<->reference server; one reader and one writer goroutine per endpoint under the race detector, PRF stream checked online, delivered==written judged at quiescence (end, after every lockstep step, after a burst in which handshake, padding, magic and payload are queued before the reader runs). Families: grid pairing x scenario x chunk policy {all,1,7,31,32,33,192,193,PRNG,4 KiB window after the handshake}; reference padding sweep (every value 0..4097 in phase 1 and phase 2 in the thorough tier, edges 0, 1, 4096, 4097 + 96 PRNG values in quick) for both roles; magic straddling a read boundary at each offset 0..32 with payload coalesced or separate; real side steered through crypto/rand.Reader and csrand.Reader to extreme private keys and to minimum/maximum padding; hostile reference peers (no magic within 8226 bytes, magic behind more than 8194 bytes, with chunkings that leave the decision to the position test) and controls at exactly 8194. The reference locates the real side's magic in the transcript and bounds its padding per phase and in total. Non-trivial = handshake completed and payload flowed (or the hostile case reached its verdict); distinct = distinct parameter tuple.")
 	r.Note("exhaustive_part", "thorough tier: every reference padding length 0..4097 in phase 1 and in phase 2, in both roles; every straddle offset 0..32 x coalesced/separate x role; all pairs of the 16 private-key classes; all hostile variants x role")
@@ -1174,6 +1179,40 @@ func TestCheck(t *testing.T) {
 					bubble(c, p.String(), func() { runConn(c, r, p) })
 				}
 			}
+		})
+	}
+
+	// ---- Part A3: several connections alive at once in one process, used in an
+	// interleaved way, with payload coalesced with the magic and applications
+	// that read in tiny pieces (whatever a connection keeps between reads must
+	// be its own)
+	r.Note("interleaved_connections", "additional family (mon.Interleave): 3 real<->real connections alive at once in one bubble, driven round-robin from one goroutine: all endpoints write (so that padding, magic and payload are queued before anybody reads), then read in pieces of 1..24 bytes, one Read per endpoint per round, write again, drain; every direction carries its own PRF stream")
+	for g := 0; g < r.Pick(12, 200); g++ {
+		g := g
+		r.Case(fmt.Sprintf("interleaved-connections/%03d", g), func(c *mon.Case) {
+			bubble(c, fmt.Sprintf("interleaved group %d", g), func() {
+				var links []mon.Link
+				var wires []*memwire.Conn
+				for k := 0; k < 3; k++ {
+					cw, sw := memwire.Pair(memwire.Options{})
+					wires = append(wires, cw, sw)
+					var sc net.Conn
+					var serr error
+					done := make(chan struct{})
+					c.Go(func() { close(done) }, func() { sc, serr = realServer(sw) })
+					cc, cerr := realClient(cw)
+					<-done
+					if cerr != nil || serr != nil {
+						c.Violation("interop/handshake-failed", fmt.Sprintf("interleaved group: %v / %v", cerr, serr), nil)
+						continue
+					}
+					links = append(links, mon.Link{Name: fmt.Sprintf("conn%d", k), A: cc, B: sc})
+				}
+				mon.Interleave(c, r, "interleaved-connections", links, r.Sub("il", g))
+				for _, w := range wires {
+					w.Close()
+				}
+			})
 		})
 	}
 
